@@ -6,6 +6,8 @@ generated @datasource functions bound to fresh ExecutionContext subclasses) are 
 registration histories through the real metaclass; `dr.run` evaluates the points with each context
 seeded; registration state (dependency order of every point, dr.IGNORE) and evaluation (values,
 missing reports, invocation log) are compared with IV.Specs + IV.Dr (Drivers/C05.lean).
+Evaluations are also interleaved BETWEEN class definitions (late registration after a first run): each is
+compared with the model's evaluation of the corresponding prefix of the history (`register` is a fold).
 The live registration data of the shipped spec sets goes through the same model.
 Oracle: stated on the invocation log and the broker, with "declared for c" = the implementation's
 requirements can be met when c is the only context supplied (computed from the generated shapes).
@@ -51,8 +53,9 @@ class SWorld(object):
     Attribute names: "p<k>"; names >= npoints are not registry points.
     """
 
-    def __init__(self, case):
+    def __init__(self, case, define_all=True):
         tag = fresh_tag()
+        self.tag = tag
         self.case = case
         self.nctx, self.npoints = case["nctx"], case["npoints"]
         self.outcome = {}
@@ -70,14 +73,28 @@ class SWorld(object):
             self.comps[self.nctx + k] = getattr(self.root, "p%d" % k)
         self.classes = []
         self.decls = {}     # cid -> (items text for the driver)
-        self.error = None
-        for ci, cd in enumerate(case["classes"]):
-            ns = {}
-            for e in cd["entries"]:
-                ns["p%d" % e["name"]] = self._make(e, tag)
-            parent = self.root if cd["parent"] < 0 else self.classes[cd["parent"]]
-            self.classes.append(type("I%d_%s" % (ci, tag), (parent,), ns))
+        self.defined = 0    # number of classes of the history created so far
         self.ids = dict((c, i) for i, c in self.comps.items())
+        while define_all and self.defined < len(case["classes"]):
+            self.define_next()
+
+    def define_next(self):
+        """create the next spec-set class of the history through the real metaclass; returns the new component ids"""
+        ci = self.defined
+        cd = self.case["classes"][ci]
+        before = set(self.decls)
+        ns = {}
+        for e in cd["entries"]:
+            ns["p%d" % e["name"]] = self._make(e, self.tag)
+        parent = self.root if cd["parent"] < 0 else self.classes[cd["parent"]]
+        self.classes.append(type("I%d_%s" % (ci, self.tag), (parent,), ns))
+        self.defined += 1
+        self.ids = dict((c, i) for i, c in self.comps.items())
+        return sorted(set(self.decls) - before)
+
+    def pcase(self):
+        """the history as far as it has been created"""
+        return dict(self.case, classes=self.case["classes"][:self.defined])
 
     def _ds(self, cid, deps, tag):
         world = self
@@ -130,22 +147,30 @@ class SWorld(object):
 
     # -- what the generator knows, independently of the implementation
     def direct_entries(self):
-        return [e for cd in self.case["classes"] if cd["parent"] < 0 for e in cd["entries"]]
+        return [e for cd in self.case["classes"][:self.defined] if cd["parent"] < 0 for e in cd["entries"]]
 
     def impls_of(self, name):
         return [e for e in self.direct_entries() if e["name"] == name and name < self.npoints]
 
     # -- protocol
-    def world_lines(self, walk):
-        out = ["new"]
-        for k in range(self.npoints):
-            out.append("point\t%d\t%d" % (k, self.nctx + k))
-        for cd in self.case["classes"]:
-            es = ";".join("%d:%d:%s" % (e["name"], e["cid"], ".".join(map(str, sorted(walk[e["cid"]]))) or "-") for e in cd["entries"])
-            out.append("class\t%d\t%s" % (1 if cd["parent"] < 0 else 0, es or "-"))
-        for cid, items in sorted(self.decls.items()):
-            out.append("decl\t%d\t%s\t-" % (cid, items))
+    def header_lines(self):
+        return ["new"] + ["point\t%d\t%d" % (k, self.nctx + k) for k in range(self.npoints)]
+
+    def class_lines(self, ci, walk, new_cids):
+        cd = self.case["classes"][ci]
+        es = ";".join("%d:%d:%s" % (e["name"], e["cid"], ".".join(map(str, sorted(walk[e["cid"]]))) or "-") for e in cd["entries"])
+        out = ["class\t%d\t%s" % (1 if cd["parent"] < 0 else 0, es or "-")]
+        for cid in new_cids:
+            out.append("decl\t%d\t%s\t-" % (cid, self.decls[cid]))
         return out
+
+    def reg_line(self):
+        return "reg\t%s\t%s" % (",".join(map(str, range(self.npoints + 1))), ",".join(map(str, self.univ())) or "-")
+
+    def run_line(self, active, order, keys, outcome):
+        return "run\t%s\t%s\t%s\t%s\t%s" % (",".join(map(str, active)) or "-", ",".join(map(str, order)) or "-",
+                                              ",".join(map(str, sorted(keys))) or "-",
+                                              ",".join(map(str, self.univ())) or "-", outs_text(outcome))
 
     def univ(self):
         return sorted(c for c in self.comps if c >= self.nctx)
@@ -254,9 +279,9 @@ def classify(case, name):
     return None
 
 
-def oracle(report, world, case, active, b, err):
-    """the property on the implementation's observable behaviour, one active context"""
-    desc = {"case": case, "active": active, "outcome": dict((str(k), v) for k, v in world.outcome.items())}
+def oracle(report, world, case, active, b, err, desc):
+    """the property on the implementation's observable behaviour, one active context; `case` is the history
+    as far as it has been created when the evaluation takes place, `desc` what a replay needs"""
     if err is not None:
         report.failure("dr.run raised %r" % (err,), desc)
         return
@@ -370,12 +395,57 @@ def outs_text(outcome):
 
 
 def check_world(chk, report, rng, case, lines, impl, cases, runs_per_ctx):
-    world = SWorld(case)
+    """one history: classes are created one by one; 0-3 evaluations are INTERLEAVED (each with a fresh broker and
+    a freshly computed graph, compared with the model's evaluation of the same prefix), then registration, the
+    rule and the full set of evaluations after the whole history"""
+    world = SWorld(case, define_all=False)
     walk = tree_walk(case)
-    lines.extend(world.world_lines(walk))
-    # registration
-    names = ",".join(map(str, range(world.npoints + 1)))
-    lines.append("reg\t%s\t%s" % (names, ",".join(map(str, world.univ())) or "-"))
+    lines.extend(world.header_lines())
+    n = len(case["classes"])
+    evals_at = {}
+    if n >= 2 and rng.random() < 0.85:
+        for _ in range(rng.randint(1, 3)):
+            k = rng.randint(1, n - 1)
+            evals_at[k] = evals_at.get(k, 0) + 1
+    script = []
+
+    def evaluate(active, style, what):
+        outcome = gen_outcome(rng, world, style)
+        mode = "run" if rng.random() < 0.5 else "components"
+        b, order, keys, err = world.run(active, outcome, mode)
+        script.append({"eval": {"active": active, "outcome": dict((str(k), v) for k, v in outcome.items()), "mode": mode}})
+        oracle(report, world, world.pcase(), active, b, err, {"case": case, "script": list(script)})
+        lines.append(world.run_line(active, order, keys, outcome))
+        text = world.run_text(b, err)
+        impl.append(text)
+        cases.append({"case": case, "what": what, "classes-created": world.defined, "active": active, "outcome": outs_text(outcome)})
+        if chk is not None:
+            shape = (tuple(tuple((e["name"], e["kind"], tuple(e["ctxs"])) for e in cd["entries"]) + (cd["parent"] < 0,)
+                           for cd in case["classes"][:world.defined]), len(script), tuple(active),
+                     tuple(sorted(outcome.values())), text.split("|inv=")[1])
+            nimpl = max([len(world.impls_of(k)) for k in range(world.npoints)] or [0])
+            chk.case(shape, nontrivial=len(active) == 1 and nimpl >= 2 and bool(world.calls))
+            chk.count("max-impls-per-spec:%d" % min(nimpl, 5))
+            chk.count("active-contexts:%d" % len(active))
+            chk.count("invoked:%d" % min(len(set(world.calls)), 6))
+            chk.count("evaluation:" + ("interleaved(before-later-classes)" if what == "prefix-run" else
+                                       "after-whole-history" + ("+earlier-evaluations" if evals_at else "")))
+            for o in outcome.values():
+                chk.count("outcome:" + o)
+
+    for ci in range(n):
+        new = world.define_next()
+        lines.extend(world.class_lines(ci, walk, new))
+        script.append({"def": ci})
+        for _ in range(evals_at.get(ci + 1, 0)):
+            r = rng.random()
+            active = [rng.randrange(world.nctx)] if r < 0.85 else [] if r < 0.9 else sorted(rng.sample(range(world.nctx), 2))
+            lines.append(world.reg_line())
+            impl.append(world.reg_text())
+            cases.append({"case": case, "what": "prefix-registration", "classes-created": world.defined})
+            evaluate(active, rng.choice(["all-v", "one-bad", "random"]), "prefix-run")
+    # registration after the whole history
+    lines.append(world.reg_line())
     impl.append(world.reg_text())
     cases.append({"case": case, "what": "registration"})
     # the rule, read off the history: which implementation supplies (model) vs the generator's own notion
@@ -394,26 +464,9 @@ def check_world(chk, report, rng, case, lines, impl, cases, runs_per_ctx):
         actives.append(sorted(rng.sample(range(world.nctx), 2)))
     for active in actives:
         for j in range(runs_per_ctx):
-            outcome = gen_outcome(rng, world, ["all-v", "one-bad", "random", "random"][j % 4])
-            b, order, keys, err = world.run(active, outcome, "run" if rng.random() < 0.5 else "components")
-            oracle(report, world, case, active, b, err)
-            lines.append("run\t%s\t%s\t%s\t%s\t%s" % (",".join(map(str, active)) or "-", ",".join(map(str, order)) or "-",
-                                                      ",".join(map(str, sorted(keys))) or "-",
-                                                      ",".join(map(str, world.univ())) or "-", outs_text(outcome)))
-            text = world.run_text(b, err)
-            impl.append(text)
-            cases.append({"case": case, "what": "run", "active": active, "outcome": outs_text(outcome)})
-            if chk is not None:
-                shape = (tuple(tuple((e["name"], e["kind"], tuple(e["ctxs"])) for e in cd["entries"]) + (cd["parent"] < 0,)
-                               for cd in case["classes"]), tuple(active), tuple(sorted(outcome.values())), text.split("|inv=")[1])
-                nimpl = max([len(world.impls_of(k)) for k in range(world.npoints)] or [0])
-                chk.case(shape, nontrivial=len(active) == 1 and nimpl >= 2 and bool(world.calls))
-                chk.count("max-impls-per-spec:%d" % min(nimpl, 5))
-                chk.count("active-contexts:%d" % len(active))
-                chk.count("invoked:%d" % min(len(set(world.calls)), 6))
-                for o in outcome.values():
-                    chk.count("outcome:" + o)
+            evaluate(active, ["all-v", "one-bad", "random", "random"][j % 4], "run")
     if chk is not None:
+        chk.count("history:%d-interleaved-evaluations" % sum(evals_at.values()))
         for cd in case["classes"]:
             chk.count("class:" + ("direct" if cd["parent"] < 0 else "grandchild"))
             for e in cd["entries"]:
@@ -527,13 +580,36 @@ class _Collect(object):
         self.found.append((desc, finding))
 
 
-def run_witness(w):
-    world = SWorld(w["case"])
-    world.outcome = dict((int(k), v) for k, v in w["outcome"].items())
-    b, order, keys, err = world.run(w["active"], world.outcome, "run")
-    col = _Collect()
-    oracle(col, world, w["case"], w["active"], b, err)
-    return world, b, col.found
+def run_script(w, with_lines=False):
+    """execute a recorded history: class definitions interleaved with evaluations (a witness without a script =
+    the whole history, then one evaluation).  Returns (world, broker of the last evaluation, oracle findings of
+    the LAST evaluation, protocol lines)"""
+    case = w["case"]
+    script = w.get("script")
+    if script is None:
+        script = [{"def": i} for i in range(len(case["classes"]))] + \
+                 [{"eval": {"active": w["active"], "outcome": w["outcome"], "mode": "run"}}]
+    world = SWorld(case, define_all=False)
+    walk = tree_walk(case)
+    lines = world.header_lines()
+    b, found = None, []
+    for st in script:
+        if "def" in st:
+            new = world.define_next()
+            lines.extend(world.class_lines(st["def"], walk, new))
+        else:
+            ev = st["eval"]
+            outcome = dict((int(k), v) for k, v in ev["outcome"].items())
+            b, order, keys, err = world.run(ev["active"], outcome, ev.get("mode", "run"))
+            col = _Collect()
+            oracle(col, world, world.pcase(), ev["active"], b, err, {})
+            found = col.found
+            lines.append(world.run_line(ev["active"], order, keys, outcome))
+            if with_lines:
+                print("  evaluation after %d classes, active %s, outcomes %s -> %s%s" % (
+                    world.defined, ev["active"], outs_text(outcome), world.run_text(b, err),
+                    "".join("\n    oracle: %s%s" % (d, (" (known finding %s)" % f) if f else "") for d, f in found)))
+    return world, b, found, lines
 
 
 SHIPPED_ORDER = r"""
@@ -573,7 +649,10 @@ def run(chk):
     chk.rule = ("random registration histories of REAL SpecSet classes: 1-5 implementing classes (12% grandchildren, which must "
                 "register nothing), 1-4 registry points plus a non-point attribute, implementations bound to fresh ExecutionContext "
                 "subclasses (single context, [ctxA, ctxB] group, through a helper datasource; rarely context-free or depending on "
-                "another registry point = the two known findings); every context active in turn (+ none / two), outcomes "
+                "another registry point = the two known findings); 85% of the histories with >= 2 classes have 1-3 evaluations "
+                "INTERLEAVED between class definitions (late registration: fresh broker, freshly computed graph, random active "
+                "context, compared with the model's evaluation of the same prefix, same oracle); after the whole history "
+                "every context active in turn (+ none / two), outcomes "
                 "value/None/SkipComponent/ContentException/crash per implementation and helper (all-succeed, one failing, random); "
                 "non-trivial = one active context, a spec with >= 2 wired implementations, something invoked; "
                 "distinct = history shape x active context x outcome multiset x invocation log")
@@ -588,7 +667,7 @@ def run(chk):
     # ---- witnesses of the known findings (corpus first)
     for fid in (F_FREE, F_REACH):
         w = load_witness(fid)
-        world, b, found = run_witness(w)
+        world, b, found, _ = run_script(w)
         chk.witnesses.append({"id": fid, "reproduces": bool(found), "oracle": [d for d, _ in found][:2]})
         if found:
             if all(f == fid for _, f in found):
@@ -613,7 +692,10 @@ def run(chk):
     bad = [m for l, m in zip(lines, model) if l.split("\t")[0] not in ("reg", "sup", "run") and m != "ok"]
     if bad:
         chk.tie_broken("protocol", "driver rejected %d world lines" % len(bad), bad[:3])
-    for what, name in (("registration", "registration(deps,IGNORE)"), ("supplier", "rule(supplier)"), ("run", "evaluation(values,missing,invocations)")):
+    for what, name in (("registration", "registration(deps,IGNORE)"), ("supplier", "rule(supplier)"),
+                       ("run", "evaluation(values,missing,invocations)"),
+                       ("prefix-registration", "interleaved:registration-of-prefix"),
+                       ("prefix-run", "interleaved:evaluation-of-prefix")):
         sel = [i for i, c in enumerate(cases) if c["what"].startswith(what)]
         chk.compare(name, [cases[i] for i in sel], [impl[i] for i in sel], [answers[i] for i in sel])
     for i in (0, 1, len(cases) - 1):
@@ -655,17 +737,14 @@ def replay(data):
         print("property violated on this input" if bad else "property holds on this input")
         return 1 if bad else 0
     case = c["case"]
-    print("replaying history with %d classes, %d points, active %s, outcomes %s" % (len(case["classes"]), case["npoints"], c["active"], c["outcome"]))
-    world, b, found = run_witness(c)
-    lines = world.world_lines(tree_walk(case))
-    _, order, keys, _ = world.run(c["active"], world.outcome, "components")
-    lines.append("reg\t%s\t%s" % (",".join(map(str, range(world.npoints + 1))), ",".join(map(str, world.univ())) or "-"))
-    lines.append("run\t%s\t%s\t%s\t%s\t%s" % (",".join(map(str, c["active"])) or "-", ",".join(map(str, order)) or "-",
-                                              ",".join(map(str, sorted(keys))) or "-", ",".join(map(str, world.univ())) or "-",
-                                              outs_text(world.outcome)))
+    nev = sum(1 for st in c.get("script", [1]) if "eval" in st) if "script" in c else 1
+    print("replaying history with %d classes, %d points, %d evaluation(s); the recorded failure is at the last one" % (
+        len(case["classes"]), case["npoints"], nev))
+    world, b, found, lines = run_script(c, with_lines=True)
+    lines.append(world.reg_line())
     out = run_driver("C05", lines)
     print("implementation: %s\n                %s" % (world.reg_text(), world.run_text(b, None)))
-    print("model:          %s\n                %s" % (out[-2], out[-1]))
+    print("model:          %s\n                %s" % (out[-1], out[-2]))
     for d, f in found:
         print("oracle:", d, ("(known finding %s)" % f) if f else "")
     print("property violated on this input" if found else "property holds on this input")
